@@ -214,7 +214,9 @@ def _uniform(col, rule="C14.R2"):
             "concatenation is applied to every column of the column list, own rows first", S.show(st[0].value)[:100] if st else "")
     sx = tctx(repo, "__add__")
     rets = sx.of_kind("return")
-    col.add(rule, "Table.__add__#on-a-copy", bool(rets) and all(r.value == S.mcall(S.mcall(S.SELF, "_copy"), "_concatenate_table", sx.P(0)) for r in rets),
+    col.add(rule, "Table.__add__#on-a-copy", bool(rets) and all(
+        S.is_call_of(r.value, meth="_concatenate_table") and r.value[1][1] == S.mcall(S.SELF, "_copy")
+        and S.call_args(r.value, ("table",)) == (sx.P(0),) for r in rets),
             sx.loc(sx.fn), "`+` concatenates onto a copy of the left table", "")
     sx = tctx(repo, "__len__")
     rets = sx.of_kind("return")
